@@ -6,15 +6,15 @@ export GOFLAGS=-mod=mod GOPROXY=off GOSUMDB=off GOTOOLCHAIN=local; unset GOWORK
 D=$(realpath $1); shift
 name=$(basename $D)
 props=${@:-$(python3 -c "import json;print(' '.join(json.loads(l)['id'] for l in open('/verif/properties.jsonl')))")}
-WT=/tmp/benign/$name; rm -rf $WT; mkdir -p /tmp/benign
+WT=/tmp/benign/$name.$$; rm -rf $WT; mkdir -p /tmp/benign
 git -C /repo worktree add -q --detach $WT HEAD || exit 2
-trap "git -C /repo worktree remove --force $WT 2>/dev/null; rm -rf /tmp/benign/ev-$name" EXIT
+trap "git -C /repo worktree remove --force $WT 2>/dev/null; rm -rf /tmp/benign/ev-$name.$$" EXIT
 if ! git -C $WT apply $D/patch.diff 2>/tmp/benign/$name.err; then echo "$name PATCH-DOES-NOT-APPLY: $(head -1 /tmp/benign/$name.err)"; exit 0; fi
 if ! (cd $WT && go build ./... 2>/dev/null); then echo "$name DOES-NOT-BUILD"; exit 0; fi
 if (cd $WT && go test -vet=off -count=1 ./openflow13/ ./protocol/ ./common/ ./util/ ./ofbase/ 2>&1) | grep -q "^FAIL\|^--- FAIL"; then echo "$name SUITE-FAILS"; exit 0; fi
 bad=0
 for p in $props; do
-  out=$(cd /verif && VERIF_ROOT=/verif OFV_EVIDENCE_DIR=/tmp/benign/ev-$name OFV_NO_SEED_AUDIT=1 ${OFV_BIN:-./bin/ofverify} check $p --repo $WT 2>&1); rc=$?
+  out=$(cd /verif && VERIF_ROOT=/verif OFV_EVIDENCE_DIR=/tmp/benign/ev-$name.$$ OFV_NO_SEED_AUDIT=1 ${OFV_BIN:-./bin/ofverify} check $p --repo $WT 2>&1); rc=$?
   if [ $rc -ne 0 ]; then bad=1; echo "$name $p FALSE-ALARM rc=$rc: $(echo "$out" | grep -E "^(VIOLATION|UNDECIDED|UNMAPPED) $p|rror" | head -2 | cut -c1-300 | tr '\n' '|')"; fi
 done
 [ $bad -eq 0 ] && echo "$name quiet on: $props"
